@@ -31,7 +31,9 @@
   combination of BYHOUR / BYMINUTE / BYSECOND under the decidable reachability hypotheses `reachableS` / `reachableSS`
   (the multi-pass loop `secondlyLoop`, with `__mod_distance` as its inner step when BYSECOND is given, stops at the
   least grid second whose hour, minute and second are listed).
-  Missing: MINUTELY with BYHOUR and BYMINUTE together, BYWEEKNO / BYEASTER
+  And `iter_eq_spec_minutely_byhour_byminute_partial`: MINUTELY with BYMINUTE and optional BYHOUR (in particular both
+  together) under `reachableMM`.
+  Missing: BYWEEKNO / BYEASTER
   under WEEKLY (BYWEEKNO under MONTHLY and DAILY..SECONDLY is covered) and BYEASTER outside YEARLY, nth BYDAY with plain BYDAY (all of it inside D-C01a), BYWEEKNO with BYEASTER or
   nth BYDAY.  Everything else below — including
   `iter_strictMono` for all seven frequencies — is proved for ALL rules / all argument sets, with no
@@ -57,6 +59,7 @@ import DateutilVerif.Proofs.RRuleDailyW
 import DateutilVerif.Proofs.RRuleMonthlyW
 import DateutilVerif.Proofs.RRuleMinutelyBH
 import DateutilVerif.Proofs.RRuleSecondlyBS
+import DateutilVerif.Proofs.RRuleMinutelyBHM
 
 namespace C01
 open RRule Cal RRule.Tables
@@ -567,6 +570,19 @@ theorem iter_eq_spec_minutely_byhour_partial (a : Args) (r : Rule) (ma : Minutel
     ∃ m, n ≤ m ∧ m ≤ 2880 * n ∧ (iter r n).1 = Spec.RRule.occ a m :=
   iter_eq_spec_minutely_byhour ma h n hle
 
+/-- **`iter_eq_spec`, proved portion, MINUTELY with BYMINUTE and optional BYHOUR — in particular BYHOUR and BYMINUTE
+    together** (BYMINUTE with any members, BYHOUR absent or non-empty, BYSECOND members 0..59) under the decidable
+    reachability hypothesis `reachableMM a`: some minute of the grid has a listed hour and a listed minute.  The inner step
+    of `minutelyLoop` is `__mod_distance` over the minutes (exact; it cannot fall off its loop), a pass moves over grid
+    minutes whose minute is unlisted, and the loop stops at the LEAST grid minute with both parts listed
+    (`minutelyLoop_bm`); `n ≤ m ≤ 2880·n`. -/
+theorem iter_eq_spec_minutely_byhour_byminute_partial (a : Args) (r : Rule) (ma : MinutelyBHMArgs a)
+    (h : construct a = .ok r) (n : Nat)
+    (hle : (Spec.RRule.startOrd a * 24 + a.dtstart.hh) * 60 + a.dtstart.mm + (2880 * n + 1440) * a.interval + 1439 <
+      (maxOrdinal + 1) * 1440) :
+    ∃ m, n ≤ m ∧ m ≤ 2880 * n ∧ (iter r n).1 = Spec.RRule.occ a m :=
+  iter_eq_spec_minutely_bhm ma h n hle
+
 /-- **`iter_eq_spec`, proved portion, SECONDLY with BYHOUR and / or BYMINUTE** (each absent or non-empty, no BYSECOND;
     BYWEEKNO as in the other sub-daily theorems) under the explicit, decidable reachability hypothesis `reachableS a`: some
     second of the grid — the orbit of the start under `+INTERVAL`, which repeats after at most 86400 steps — lies in a
@@ -723,6 +739,10 @@ example : ((match construct { freq := 4, dtstart := dt 2024 1 1 9, interval := 7
 example : MinutelyByArgs { freq := 5, dtstart := dt 2024 1 1 9, interval := 25, byminute := some [0, 30] } :=
   ⟨rfl, by decide, by decide, Or.inl rfl, rfl, by intro x hx; simp at hx, rfl, ⟨[0, 30], rfl, by decide⟩,
    by intro x hx; simp at hx⟩
+-- a MinutelyBHMArgs instance: every 25 minutes, only at 9h / 17h and :00 / :30 (the start itself is listed)
+example : MinutelyBHMArgs { freq := 5, dtstart := dt 2024 1 1 9, interval := 25, byhour := some [9, 17], byminute := some [0, 30] } :=
+  ⟨rfl, by decide, by decide, Or.inl rfl, rfl, by intro x hx; simp at hx, Or.inr ⟨[9, 17], rfl, by decide⟩, ⟨[0, 30], rfl⟩,
+   by intro x hx; simp at hx, List.any_eq_true.mpr ⟨0, List.mem_range.mpr (by omega), by decide⟩⟩
 -- a SecondlyBHMArgs instance: every 45 s, only in minutes :00 and :30 (the start itself is listed: witness j = 0)
 example : SecondlyBHMArgs { freq := 6, dtstart := dt 2024 1 1 9, interval := 45, byminute := some [0, 30] } :=
   ⟨rfl, by decide, by decide, Or.inl rfl, rfl, by intro x hx; simp at hx, Or.inl rfl, Or.inr ⟨[0, 30], rfl, by decide⟩, rfl,
